@@ -265,7 +265,9 @@ pub fn rows(args: &[String]) -> i32 {
     let thorough = arg_value(args, "--tier").as_deref() == Some("thorough");
     let mut out = Out::new(&arg_value(args, "--out").unwrap_or("-".into()));
     let mut rng = Rng::new(seed ^ 0xC18);
-    let lits: Vec<&str> = if thorough { vec!["1", "2.5", "-4e3", "1e-3", "0", "+12.75E+2"] } else { vec!["1", "2.5", "-4e3", "1e-3", "0"] };
+    // (the first two go to the f64 quantities as well; plain integers beyond the i32 / i64 range are ordinary decimal literals)
+    let lits: Vec<&str> = if thorough { vec!["1", "2.5", "-4e3", "1e-3", "0", "+12.75E+2", "3000000000", "-123456789012345678901", "5.", "-.5"] }
+                          else { vec!["1", "2.5", "-4e3", "1e-3", "0", "3000000000", "123456789012345678901", "-.5"] };
     macro_rules! both {
         ($q:expr, $name:ident) => {{
             let c = candidates($q, &mut rng, thorough);
